@@ -1,9 +1,9 @@
 #!/bin/bash
-# usage: confirm_mutant.sh <out-dir (with patch.diff, demo.diff|demo.rs, notes.md)> <id> <demo test filter / command hint>
+# usage: confirm_mutant.sh <out-dir (with patch.diff, demo.diff|demo.rs, notes.md)> <id> <demo test filter / command hint> [extra cargo flags for the demo]
 # Confirms in a fresh scratch worktree: (1) patch applies, suite passes with it, (2) demo fails with it, (3) demo passes without it.
 # Writes /verif/seeded/<id>/{patch.diff,demo.*,meta.json,confirm.log}
 set -u
-SRC=$1; ID=$2; FILTER=$3
+SRC=$1; ID=$2; FILTER=$3; XFLAGS=${4:-}
 WT=/tmp/cf-$ID
 OUT=/verif/seeded/$ID
 mkdir -p $OUT
@@ -23,7 +23,7 @@ add_demo() {
   if [ -f $OUT/demo.rs ]; then cp $OUT/demo.rs tests/verif_demo_$ID.rs; fi
 }
 run_demo() {
-  if [ -f $OUT/demo.rs ]; then cargo test --offline -j 6 --test verif_demo_$ID -- --test-threads 4 2>&1 | tail -15
+  if [ -f $OUT/demo.rs ]; then cargo test --offline -j 6 $XFLAGS --test verif_demo_$ID -- --test-threads 4 2>&1 | tail -15
   else cargo test --offline -j 6 -p redb@4.2.0 --lib $FILTER -- --test-threads 4 2>&1 | tail -15; fi
 }
 # (3) demo on unchanged code
